@@ -315,6 +315,17 @@ theorem reports_truthful (n : Nat) (prog : Prog) (req : Nat) (hn : 0 < n) (hwf :
   · rw [h.evtQ w] at hm; simp at hm
   · exact h.evt w a rs hm t r htr
 
+/-- **Every spawn reply re-queues its caller**: each NotifySpawn applied so far found its caller
+parked in `spawning` (flag `true` in the ghost history), so — with `notify_spawn_requeues_iff_parked`
+and `spawn_reply` — every spawner is resumed exactly once per spawn, with the new pid. -/
+theorem spawner_always_requeued (n : Nat) (prog : Prog) (req : Nat) (hn : 0 < n) (hwf : ProgWF prog) (cs : List Choice) :
+    ∀ x ∈ (reach n prog req cs).spawnNotified, x.2.2 = true := by
+  have hinv : PreStart (reach n prog req cs) ∨ NInv (reach n prog req cs) :=
+    invariant_from_init Rules.current NInv (fun _ h => NInv.of_started h) (fun _ m h => h.micro m) n prog req hn hwf cs
+  rcases hinv with h | h
+  · intro x hx; rw [h.spawnNotified] at hx; simp at hx
+  · exact h.all
+
 /-- `notify_spawn` re-queues the caller iff it was parked in `spawning` (and always hands it the
 pid): the handler on an arbitrary state. -/
 theorem notify_spawn_requeues_iff_parked (s : Sys) (i : Wid) (caller newPid : Pid) (x : Proc)
